@@ -179,6 +179,19 @@ func collect(s *spec.Spec, env *model.Env, v val.V, path []string, steps []step,
 		for i := range v.M {
 			keyStr := fmt.Sprint(v.M[i].K.Go())
 			collect(s.Values, env, v.M[i].V, cp(path, keyStr), cs(steps, step{"mapval", i}), out)
+			// a key of a type the key schema cannot take: the element is the key itself, named as written
+			{
+				var bad val.V
+				switch s.Keys.Kind {
+				case spec.KInt, spec.KEnumI:
+					bad = val.Str("seven")
+				default:
+					bad = val.V{T: "[]any"}
+				}
+				if bad.T == "string" {
+					*out = append(*out, corruption{steps: cs(steps, step{"mapkey", i}), paths: [][]string{cp(path, fmt.Sprint(bad.Go()))}, kind: "map_key_of_wrong_type", f: func(val.V) val.V { return bad }})
+				}
+			}
 			// a bad key: the element is the key itself
 			switch s.Keys.Kind {
 			case spec.KEnumS, spec.KEnumI:
@@ -441,6 +454,62 @@ func judgeErr(c Case, operr error, desc string) string {
 	return fmt.Sprintf("%s was rejected because of the single fault %q at path %v, but the error's path is %v (%v)", desc, c.Kind, c.Paths[0], ce.Path, operr)
 }
 
+// rewriteKeys renders the integer keys of maps in another accepted notation: a unit sentence where the key type has
+// units, the decimal text otherwise. The container becomes a map[any]any / map[string]any as needed by the key.
+func rewriteKeys(t *rapid.T, s *spec.Spec, env *model.Env, v val.V) val.V {
+	if s == nil {
+		return v
+	}
+	switch s.Kind {
+	case spec.KList:
+		c := v
+		c.L = append([]val.V(nil), v.L...)
+		for i := range c.L {
+			c.L[i] = rewriteKeys(t, s.Items, env, c.L[i])
+		}
+		return c
+	case spec.KMap:
+		c := v
+		c.M = append([]val.KV(nil), v.M...)
+		rewritten := false
+		for i := range c.M {
+			c.M[i].V = rewriteKeys(t, s.Values, env, c.M[i].V)
+			if s.Keys.Kind == spec.KInt && c.M[i].K.T == "int64" {
+				x, _ := c.M[i].K.Go().(int64)
+				if s.Keys.Units != nil {
+					if str, ok := gen.UnitString(t, s.Keys.Units, x); ok {
+						c.M[i].K = val.Str(str)
+						rewritten = true
+						ev.Class("map_key_as_unit_sentence", 1)
+						continue
+					}
+				}
+				c.M[i].K = val.Str(fmt.Sprint(x))
+				rewritten = true
+				ev.Class("map_key_as_text", 1)
+			}
+		}
+		if rewritten {
+			c.T = "map[any]any"
+		}
+		return c
+	case spec.KObject, spec.KRef, spec.KScope:
+		o, oenv := model.Resolve(s, env)
+		if o == nil {
+			return v
+		}
+		c := v
+		c.M = append([]val.KV(nil), v.M...)
+		for i := range c.M {
+			if p := o.PropByName(c.M[i].K.S); p != nil {
+				c.M[i].V = rewriteKeys(t, p.Type, oenv, c.M[i].V)
+			}
+		}
+		return c
+	}
+	return v
+}
+
 func c17Opts(depth int) gen.Opts {
 	o := gen.Full(depth)
 	o.Disabled = false
@@ -458,6 +527,11 @@ func TestErrorPaths(t *testing.T) {
 			rt.Skip("no valid value")
 		}
 		raw := gen.RenderCanonical(rt, s, nil, mv)
+		if rapid.Bool().Draw(rt, "keysAsWritten") {
+			// map keys in another notation than the canonical one (a unit sentence, a number as text): the path names
+			// the key as the author wrote it
+			raw = rewriteKeys(rt, s, nil, raw)
+		}
 		sch, err := spec.Build(s)
 		if err != nil {
 			rt.Skip("build")
